@@ -4,6 +4,8 @@
 package main
 
 import (
+	"bytes"
+	"fmt"
 	"sort"
 	"verifharness/smtpd"
 	"verifharness/vh"
@@ -63,6 +65,30 @@ func gen(g *vh.Gen) {
 			chunks[len(chunks)-1] = chunks[len(chunks)-1][:g.Intn(len(chunks[len(chunks)-1])+1)]
 		}
 		g.Emit("smtp", append(c.Fields(), smtpd.NetField(chunks, g.Pick("eof", "idle", "idle", "err")))...)
+	}
+	// writes that fail: the client has gone away (or stopped reading) after k reply lines, the greeting included;
+	// every k for a few valid dialogues, random k with pauses and endings for the rest
+	for i := 0; i < g.N(6, 200); i++ {
+		c, pool := smtpd.GenCfg(g, oc)
+		c.DA, c.DS, c.Rej, c.Dis = true, true, "", ""
+		stream := smtpd.GenDialogue(g, c, pool, oc)
+		lines := bytes.Count(stream, []byte("\n")) + 6
+		if lines > 40 {
+			lines = 40
+		}
+		for k := 0; k <= lines; k++ {
+			g.Emit("smtp", append(c.Fields(), fmt.Sprintf("%s^%d", vh.H(stream), k))...)
+		}
+	}
+	for i := 0; i < g.N(60, 3000); i++ {
+		c, pool := smtpd.GenCfg(g, oc)
+		stream := smtpd.GenDialogue(g, c, pool, oc)
+		chunks := [][]byte{stream}
+		if len(stream) > 0 && g.Chance(0.4) {
+			k := g.Intn(len(stream) + 1)
+			chunks = [][]byte{stream[:k], stream[k:]}
+		}
+		g.Emit("smtp", append(c.Fields(), fmt.Sprintf("%s^%d", smtpd.NetField(chunks, g.Pick("eof", "eof", "idle", "err")), g.Intn(30)))...)
 	}
 	// one pause at every byte offset of valid dialogues
 	for i := 0; i < g.N(3, 150); i++ {
